@@ -35,6 +35,7 @@ type recState struct {
 	logSeen   int
 	problems  []Problem
 	callsSeen int
+	burst     bool // the step being judged ran several operations without quiescence in between
 }
 
 func (r *recState) problem(cat, sig, detail string) {
@@ -157,7 +158,10 @@ func (r *recState) checkpoint() {
 		case "event":
 			got = append(got, Got{o.Name, o.Op, o.From})
 		case "error":
-			r.problem("errors-chan", "value on Errors during a one-level-at-a-time history: "+o.Err, o.What)
+			// C19 quantifies over one-level-at-a-time histories; what a burst puts on Errors is not its business
+			if !r.burst {
+				r.problem("errors-chan", "value on Errors during a one-level-at-a-time history: "+o.Err, o.What)
+			}
 		}
 	}
 	r.problems = append(r.problems, Align(exp, got)...)
@@ -226,7 +230,7 @@ func recScenario(p map[string]any) *Scenario {
 				mustNil(os.MkdirAll(q, 0o755))
 			}
 		}
-		mk("w/r/dir1/c1", "w/r/dir10/c10", "w/r/sub/d", "w/r/sub2/d", "w/r2/x", "w/out", "w/r/empty")
+		mk("w/r/dir1/c1", "w/r/dir10/c10", "w/r/sub/d", "w/r/sub2/d", "w/r2/x", "w/out", "w/r/empty", "w/r/sub/..x", "w/r/...y")
 		for _, f := range []string{"w/r/f", "w/r/dir1/f", "w/r/dir10/f", "w/r/sub/f", "w/r/sub2/f", "w/r/sub/d/f", "w/r/sub2/d/f", "w/r2/x/f"} {
 			mustNil(os.WriteFile(f, []byte("x"), 0o644))
 		}
@@ -285,6 +289,11 @@ func recScenario(p map[string]any) *Scenario {
 			r.checkpoint()
 		}
 		for _, op := range ops {
+			if strings.Contains(op, ";;") {
+				r.burst = true
+			} else if !lateq {
+				r.burst = false
+			}
 			for _, part := range strings.Split(op, ";;") {
 				do(strings.TrimSpace(part))
 			}
